@@ -65,6 +65,9 @@ NATIVE_UNITS = {
     "template_location_known": {"file": "src/interpreter/interpreter.rs", "source": "eval_location.rs",
                                 "modpath": "interpreter::interpreter", "test": "verif_native_template_location_known", "role": "known",
                                 "finding": "template-location"},
+    "callee_location_known": {"file": "src/interpreter/interpreter.rs", "source": "eval_location.rs",
+                              "modpath": "interpreter::interpreter", "test": "verif_native_callee_location_known", "role": "known",
+                              "finding": "callee-body-location"},
     "core_eval_witness": {"file": "src/interpreter/interpreter.rs", "source": "core_eval.rs",
                           "modpath": "interpreter::interpreter", "test": "verif_native_core_eval_witness", "role": "witness",
                           "for_fns": ["eval_expression", "as_boolean", "read_literal", "eval_primitive", "apply_scheme_procedure", "apply", "eval_expression_or_definition"]},
@@ -217,7 +220,7 @@ PROPS = {
         "assumptions": [],
     },
     "C15": {
-        "verus": ["lexer_pos", "interp_loc", "interp_eval"], "kani": [], "native": ["lexer_position_witness", "eval_location_witness", "template_location_known"],
+        "verus": ["lexer_pos", "interp_loc", "interp_eval"], "kani": [], "native": ["lexer_position_witness", "eval_location_witness", "template_location_known", "callee_location_known"],
         "level": "proof",
         "explanation": "Two of the stages through which locations are threaded are proved for all inputs: Lexer::advance maintains the exact "
                        "1-based line and the column recurrence over the consumed prefix (so a token's position is never on an earlier line "
